@@ -87,6 +87,8 @@ Check(e) ==
     [] e.op = "spsend" -> LET ins == [j \in 1..Len(e.inputs) |-> [d |-> N(e.inputs[j].d), taproot |-> e.inputs[j].taproot]]
                               exp == SenderOutputs(ins, [j \in 1..Len(e.outpoints) |-> HX(e.outpoints[j])], RsOf(e)) IN
                             [j \in 1..Len(e.outs) |-> HX(e.outs[j])] = exp
+    [] e.op = "spinput" -> LET k == SpInputKey(FromHex(e.spk), FromHex(e.sig), [j \in 1..Len(e.wit) |-> FromHex(e.wit[j])]) IN
+          IF k.none THEN e.out = [none |-> TRUE] ELSE e.out = [none |-> FALSE, x |-> ToHex(BToBytes(k.x, 32)), y |-> ToHex(BToBytes(k.y, 32))]
     [] e.op = "spscan" -> LET found == Scan(N(e.bscan), RMulG(K1, N(e.bspend)), {LabelTweak(N(e.bscan), e.labels[j]) : j \in 1..Len(e.labels)},
                                             PtOf(e.a), [j \in 1..Len(e.outpoints) |-> HX(e.outpoints[j])], {HX(e.outs[j]) : j \in 1..Len(e.outs)}) IN
                             /\ [j \in 1..Len(e.found) |-> <<HX(e.found[j].o), N(e.found[j].t)>>] = found
@@ -99,6 +101,7 @@ Diag == i > 0 => PrintT(<<"DIAG", i, <<Trace[i].op,
               [] Trace[i].op = "psbtmusig" -> LET e == Trace[i]  ses == PsbtSes(e)  psigs == [j \in 1..Len(e.psigs) |-> N(e.psigs[j])] IN
                      <<ToHex(CBytes(K1, KeyAgg(K1, S256, Pks(e)).Q)), ses.ok, ToHex(XBytes(K1, ses.Q.x)),
                        [j \in 1..Len(psigs) |-> PartialVerify(K1, S256, Pks(e), ses, psigs[j], Nonces(e)[j], Pks(e)[j])], PartialAgg(K1, ses, psigs)>>
+              [] Trace[i].op = "spinput" -> LET e == Trace[i] IN SpInputKey(FromHex(e.spk), FromHex(e.sig), [j \in 1..Len(e.wit) |-> FromHex(e.wit[j])])
               [] Trace[i].op = "ring" -> RingOut(Trace[i])
               [] Trace[i].op = "ellswift" -> LET e == Trace[i]  c == CurveOf(e.c)  b == HX(e.ell)  size == PLen(c) IN
                               EllDecode(c, BFromBytes(SubSeq(b, 1, size)), BFromBytes(SubSeq(b, size + 1, 2 * size)))
